@@ -206,7 +206,11 @@ async fn handle(
         } => handle_stream_append(&mut store, req, topic, ttl, context_id).await,
 
         Routes::CasGet(hash) => {
-            let reader = store.cas_reader(hash).await?;
+            let reader = match store.cas_reader(hash).await {
+                Ok(reader) => reader,
+                // unknown (or unreadable) content: answer instead of dropping the connection
+                Err(_) => return response_404(),
+            };
             let stream = ReaderStream::new(reader);
 
             let stream = stream.map(|frame| {
